@@ -10,6 +10,7 @@
 D5  a register number placed in the low bits of the opcode byte (push/pop/mov imm) has its
     bit 3 carried by a REX prefix, as the full register name in the listing requires
 D6  a displacement is emitted as one byte only where it is known to lie in [-128, 127]
+D9  a one-byte-immediate row is selected for a run-time immediate only where it is known to lie in [-128, 127]
 D8  the memory-operand formats of the text emitter, instantiated with negative and large displacements, assemble to
     that displacement
 D7  the displacement-free (mod=0) memory form is emitted only for bases other than rbp / r13
@@ -347,6 +348,8 @@ def run(ctx):
     check_disp8(db, rep, "D6-DISP8-RANGE")
     from x86enc import check_mod0_base
     check_mod0_base(db, rep, "D7-MOD0-BASE")
+    from x86enc import check_imm8
+    check_imm8(db, rep, "D9-IMM8-RANGE")
     from x86enc import check_listing_displacements
     wd8 = os.path.join(ctx.scratch, "disp")
     os.makedirs(wd8, exist_ok=True)
